@@ -5,10 +5,14 @@ mod = importlib.import_module('props.' + sys.argv[1])
 name = sys.argv[2]
 args = [int(a) if a.lstrip('-').isdigit() else (a == 'True' if a in ('True', 'False') else a) for a in sys.argv[3:]]
 t = time.time()
-res = getattr(mod, name)(*args)
+out = getattr(mod, name)(*args)
+from vc.common import discharge_pool
+outs = out if isinstance(out, list) else [out]
+gen = time.time() - t
+res = [dict(r=r) for r in discharge_pool([o for u in outs for o in u['obligations']])]
 dt = time.time() - t
 bad = [d['r'] for d in res if d['r'].status not in ('proved', 'covered')]
-print(name, args, 'n=', len(res), 'bad=', len(bad), 't=%.1f' % dt, 'solver=%.1f' % sum(d['r'].seconds for d in res))
+print(name, args, 'gen=%.1f' % gen, 'n=', len(res), 'bad=', len(bad), 't=%.1f' % dt, 'solver=%.1f' % sum(d['r'].seconds for d in res))
 for r in bad[:14]:
     print('  ', r.name, r.status, r.backend, '%.1f' % r.seconds, r.detail[:60])
 for d in sorted(res, key=lambda d: -d['r'].seconds)[:4]:
